@@ -440,7 +440,8 @@ def special_scenarios():
                        {"label": "after", "inputs": [["c", ["S", "child", []]]], "logic": ["fn", "echo"]}]
         sc["cell"] = f"composite sub inner={'+'.join(inner)}"
         yield sc
-    for items in (["ok", "retry7", "ok"], ["ok", "ok", "retry30"], ["skip", "depskip"], ["ok", "permfail"], ["retry7", "permfail"]):
+    for items in (["ok", "retry7", "ok"], ["ok", "ok", "retry30"], ["skip", "depskip"], ["ok", "permfail"], ["retry7", "permfail"],
+                  ["retry7"], ["permfail"], ["skip"], ["depskip"], ["ok"], ["err"]):      # incl. single-item lists
         sc = copy.deepcopy(base)
         sc["steps"] = [{"label": "fan", "inputs": [["w", C(1)]], "foreach": [C(items), "cls"], "logic": ["fn", "bycls"]},
                        {"label": "after", "inputs": [["c", ["S", "fan", []]]], "logic": ["fn", "echo"]}]
@@ -476,19 +477,17 @@ def special_scenarios():
 def scenarios(ctx: Ctx):
     for c in corpus_cases("C01"):
         yield c
-    special = list(special_scenarios())
-    if ctx.quick():
-        ctx.rng.shuffle(special)
-        special = sorted(special[:130], key=lambda x: x["cell"])
-    for sc in special:
+    # the special families exist because an independently seeded change needed them: they ALWAYS run in full,
+    # at every tier (deterministic); only the grid and the random workflows are sampled at quick tier
+    for sc in special_scenarios():
         yield sc
     grid = list(grid_scenarios())
     if ctx.quick():
         ctx.rng.shuffle(grid)
-        grid = grid[:120]
+        grid = grid[:60]
     for sc in grid:
         yield sc
-    for _ in range(160 if ctx.quick() else 4000):
+    for _ in range(100 if ctx.quick() else 4000):
         yield m.rand_scenario(ctx.rng)
 
 
